@@ -180,7 +180,7 @@ def site(span, repo=None):
 
 
 def macro_names(span):
-    return [m.split(":", 1)[1] for m in (span.get("mx") or []) if m.startswith("macro:")]
+    return [m.split(":", 1)[1].split("::")[-1] for m in (span.get("mx") or []) if m.startswith("macro:")]
 
 
 def is_debug_only(span):
@@ -206,6 +206,10 @@ def pc_show(pc):
     return " & ".join(out)
 
 
+# estimator path -> callable(machine, cell): domain facts every abstract state of that type gets
+STATE_ASSUME = {}
+
+
 class Alg:
     """API algebra on one machine: build states and apply the estimator's own operations to them."""
 
@@ -214,10 +218,14 @@ class Alg:
         self.est = est
         self.db = m.db
         self.k = 0
+        self.state_assume = STATE_ASSUME.get(est.path)
 
     def sym(self, name, nmin=1, bounds=None):
         """abstract state named `name`; every integer leaf (sample count) is >= nmin"""
-        return Cell(self.m.sym_value(self.est.ty(), name, None, bounds, nmin), root=name)
+        c = Cell(self.m.sym_value(self.est.ty(), name, None, bounds, nmin), root=name)
+        if self.state_assume is not None:
+            self.state_assume(self.m, c)
+        return c
 
     def new(self, name="new", *args):
         v = call(self.m, self.est.new, list(args))
